@@ -246,11 +246,17 @@ func inlineOne(p *packages.Package, path string, known map[string]bool) string {
 			if looseBranches(fd.Body) {
 				continue
 			}
-			pre, ok := bindArguments(fd, sig, site, info)
-			if !ok {
+			if !sameMeaningAt(fd.Body, p, site.Pos()) {
 				continue
 			}
-			if !sameMeaningAt(fd.Body, p, site.Pos()) {
+			// nothing below may fail: from here on the body is rewritten in place
+			if mode == "guard" {
+				if _, err := copyStmts(selected, site.Pos()); err != nil {
+					continue
+				}
+			}
+			pre, ok := bindArguments(fd, sig, site, info)
+			if !ok {
 				continue
 			}
 			body := fd.Body.List
